@@ -105,7 +105,10 @@ def ser_hook(crate):
 def serializer_terms(crate, lexpr):
     """method name -> canonical term string of what it returns / pushes."""
     out = {}
-    fns = [f for f in crate.fns if f.file.endswith("value/ser.rs") and f.kind == "assoc" and f.impl_trait]
+    # the serde side of the serializer: impls of serde's own traits (a derived Debug or a private helper trait of the
+    # collectors is not a serializer method)
+    fns = [f for f in crate.fns if f.file.endswith("value/ser.rs") and f.kind == "assoc" and (f.impl_trait or "").startswith("serde::")
+           and not f.derived]
     inl = lambda a, b: b.crate == crate.name and b.file.endswith("value/ser.rs")
     for f in fns:
         S = sim.Sim([crate], hooks={"call": ser_hook(crate)}, inline=inl, max_depth=4, max_paths=2000)
